@@ -273,15 +273,15 @@ Definition has_doc (id : Z) (c : list doc) : bool := existsb (fun d => d_id d =?
 Definition count_calls (id : Z) (calls : list (list doc)) : nat := length (filter (has_doc id) calls).
 
 (* failing clauses (property 14):
-   1 [id]   an accepted request is not answered exactly once with the answer the statement promises
-   2 [id]   a document is sent more or less often than the statement allows (mapping errors never re-sent, other
+   1 [0;id] an accepted request is not answered exactly once with the answer the statement promises
+   2 [0;id] a document is sent more or less often than the statement allows (mapping errors never re-sent, other
             failures re-sent until bulk-index-max-retries, nothing re-sent once answered)
    3        a bulk request holds more than batch-size documents, a document twice, or a document whose
             index / id / body is not that of an accepted request
    4 [high] more than index-workers bulk requests in flight at once
    5        no quiescence: a partial batch was not sent (or requests stayed unanswered) although arrivals paused
    6 [1;id] Shutdown left an accepted request unanswered; detail 1 = it was still in the pending batch
-   7 [id]   a wrong-typed payload is not answered with exactly one error, or was enqueued *)
+   7 [0;id] a wrong-typed payload is not answered with exactly one error, or was enqueued *)
 Definition spec_c14 (i : einput) (o : eobs) : list tree :=
   if eo_unreliable o || negb (in_domain14 i) then [] else
   let cfg := ei_cfg i in
@@ -293,11 +293,11 @@ Definition spec_c14 (i : einput) (o : eobs) : list tree :=
   flat_map (fun d =>
     let got := lookup_answers (d_id d) (eo_answers o) in
     if dropped d then [clause 14 6 [L 1; L (d_id d)]]
-    else if nw then (if list_eqb tree_eqb got [enc_answer (fst (f d))] then [] else [clause 14 1 [L (d_id d)]])
-    else match got with [_] => [] | _ => [clause 14 1 [L (d_id d)]] end) docs
+    else if nw then (if list_eqb tree_eqb got [enc_answer (fst (f d))] then [] else [clause 14 1 [L 0; L (d_id d)]])
+    else match got with [_] => [] | _ => [clause 14 1 [L 0; L (d_id d)]] end) docs
   ++ flat_map (fun d =>
     if negb nw || dropped d then []
-    else if (count_calls (d_id d) (eo_calls o) =? snd (f d))%nat then [] else [clause 14 2 [L (d_id d)]]) docs
+    else if (count_calls (d_id d) (eo_calls o) =? snd (f d))%nat then [] else [clause 14 2 [L 0; L (d_id d)]]) docs
   ++ (if forallb (fun c => (length c <=? batch_size cfg)%nat && nodupb (map d_id c)
                            && forallb (fun x => existsb (doc_eqb x) docs) c) (eo_calls o)
       then [] else [clause 14 3 []])
@@ -305,7 +305,7 @@ Definition spec_c14 (i : einput) (o : eobs) : list tree :=
   ++ (if eo_timeout o then [clause 14 5 []] else [])
   ++ flat_map (fun id =>
     if list_eqb tree_eqb (lookup_answers id (eo_answers o)) [enc_answer AOther] && (count_calls id (eo_calls o) =? 0)%nat
-    then [] else [clause 14 7 [L id]]) (bads_of (ei_ops i)).
+    then [] else [clause 14 7 [L 0; L id]]) (bads_of (ei_ops i)).
 
 (* ---------- wire (C14) ---------- *)
 Definition dec_doc (t : tree) : option doc :=
